@@ -49,10 +49,7 @@ func writePinnedParams(c *Ctx, path string) error {
 		for _, v := range f.FreeVars {
 			e.FreeVars = append(e.FreeVars, v.Name())
 		}
-		if len(e.Params) == 0 && len(e.FreeVars) == 0 {
-			continue
-		}
-		out[fnKey(f)] = e
+		out[fnKey(f)] = e // also functions without parameters: the key set is the list of functions of the pinned commit
 	}
 	keys := make([]string, 0, len(out))
 	for k := range out {
@@ -126,4 +123,59 @@ func freeVarIs(v *ssa.FreeVar, name string) bool {
 		}
 	}
 	return false
+}
+
+// isPinnedFn: the function existed (under this key) at the commit the rules were written against.
+func isPinnedFn(key string) bool {
+	_, ok := pinned()[key]
+	return ok
+}
+
+// PinnedRoot: the function of the pinned commit that f's code belongs to. A closure belongs to its enclosing
+// function; a function that did not exist at the pinned commit (extracted during a refactoring) belongs to the
+// pinned function all its static callers (call, go, defer; transitively through other new functions) belong to.
+// When that is not unique, f stands for itself.
+func (c *Ctx) PinnedRoot(f *ssa.Function) *ssa.Function {
+	return c.pinnedRootD(f, 0)
+}
+
+func (c *Ctx) pinnedRootD(f *ssa.Function, d int) *ssa.Function {
+	r := c.Root(f)
+	if isPinnedFn(fnKey(r)) || d > 3 {
+		return r
+	}
+	if c.callersOf == nil {
+		c.callersOf = map[*ssa.Function][]*ssa.Function{}
+		for _, g := range c.Fns {
+			g := g
+			allInstrs(g, func(in ssa.Instruction) {
+				ci, ok := in.(ssa.CallInstruction)
+				if !ok {
+					return
+				}
+				if sc := ci.Common().StaticCallee(); sc != nil {
+					if o := sc.Origin(); o != nil {
+						sc = o
+					}
+					c.callersOf[sc] = append(c.callersOf[sc], g)
+				}
+			})
+		}
+	}
+	var root *ssa.Function
+	for _, caller := range c.callersOf[r] {
+		if c.Root(caller) == r {
+			continue // recursion
+		}
+		pr := c.pinnedRootD(caller, d+1)
+		if root == nil {
+			root = pr
+		} else if root != pr {
+			return r
+		}
+	}
+	if root == nil {
+		return r
+	}
+	return root
 }
